@@ -176,9 +176,12 @@ pub fn world(ch: &mut Chooser) -> World {
     if lv_init == 2 || ((lv_init == 0 || lv_init == 3) && !has_high) {
         w.violated.insert("P0014");
     }
-    let xtype = ["INT", "Nope", "DINT", "Nope := 5", "INT := 5"][ch.pick("xtype", &["INT", "unknown-type", "DINT", "unknown-type-with-initial-value", "INT-with-initial-value"], 1)];
+    let xtype = ["INT", "Nope", "DINT", "Nope := 5", "INT := 5", "TON"][ch.pick("xtype", &["INT", "unknown-type", "DINT", "unknown-type-with-initial-value", "INT-with-initial-value", "standard-function-block-that-is-not-implemented"], 1)];
     if xtype.starts_with("Nope") {
         w.violated.insert("P0022");
+    }
+    if xtype == "TON" {
+        w.violated.insert("P0029");
     }
     let fbtype = ["Callee", "NoFb"][ch.pick("fbtype", &["Callee", "unknown-fb-type"], 1)];
     let kdecl = ch.pick(
@@ -216,7 +219,7 @@ pub fn world(ch: &mut Chooser) -> World {
     // ---------------- use site
     let site_names: Vec<&str> = SITES.iter().map(|s| s.0).collect();
     let site = ch.pick("site", &site_names, 0);
-    let name = ["x", "zz", "k", "G", "1", "a_in", "q_out"][ch.pick("name", &["declared-local", "undeclared", "constant-k", "external-G", "literal", "declared-input", "declared-output"], 1)];
+    let name = ["x", "zz", "k", "G", "1", "a_in", "q_out", "io_v"][ch.pick("name", &["declared-local", "undeclared", "constant-k", "external-G", "literal", "declared-input", "declared-output", "declared-in-out"], 1)];
     let (site_label, template, is_target) = SITES[site];
     let name = if is_target && (name == "1" || name == "k" || name == "G" || name == "a_in") { "y" } else { name };
     let stmt = template.replace("{}", name);
@@ -231,7 +234,7 @@ pub fn world(ch: &mut Chooser) -> World {
     // ---------------- fb invocation
     let inv = ch.pick(
         "invoke",
-        &["formal-all", "none", "no-args", "formal-some", "positional-exact", "formal+inout", "unknown-formal", "mixed", "positional-too-few", "positional-too-many", "unknown-output", "output-only", "formal-wrong-case"],
+        &["formal-all", "none", "no-args", "formal-some", "positional-exact", "formal+inout", "unknown-formal", "mixed", "positional-too-few", "positional-too-many", "unknown-output", "output-only", "formal-wrong-case", "positional+output", "positional+unknown-output", "unknown-output-only"],
         1,
     );
     let inv_s = [
@@ -248,6 +251,9 @@ pub fn world(ch: &mut Chooser) -> World {
         "inst ( a := x , zz => y ) ;",
         "inst ( q => y ) ;",
         "inst ( A := x , B := TRUE ) ;",
+        "inst ( x , TRUE , q => y ) ;",
+        "inst ( x , TRUE , zz => y ) ;",
+        "inst ( zz => y ) ;",
     ][inv];
     match inv {
         6 => {
@@ -259,7 +265,7 @@ pub fn world(ch: &mut Chooser) -> World {
         8 | 9 => {
             w.violated.insert("P0008");
         }
-        10 => {
+        10 | 14 | 15 => {
             w.violated.insert("P0009");
         }
         _ => {}
@@ -287,11 +293,11 @@ pub fn world(ch: &mut Chooser) -> World {
     };
     let (hopen, hclose) = if host_kind == 0 { ("FUNCTION_BLOCK Host", "END_FUNCTION_BLOCK") } else { ("PROGRAM Host", "END_PROGRAM") };
     let host_words = format!(
-        "{} VAR_INPUT a_in : INT ; END_VAR VAR_OUTPUT q_out : INT ; END_VAR VAR {}x : {} ; y : INT ; lv : {}{} ; arr : Arr ; str : STRING ; END_VAR {} {} {} {} {} q_out := y ; {}",
+        "{} VAR_INPUT a_in : INT ; END_VAR VAR_OUTPUT q_out : INT ; END_VAR VAR_IN_OUT io_v : INT ; END_VAR VAR {}x : {} ; y : INT ; lv : {}{} ; arr : Arr ; str : STRING ; END_VAR {} {} {} {} {} q_out := y ; {}",
         hopen, inst_decl, xtype, lv_type, lv_init_s, kdecl_s, ext_s, inv_s, pre_s, stmt, hclose
     );
     let mut host = d("Host", if host_kind == 0 { "fb" } else { "program" }, &host_words);
-    host.faulty = w.violated.iter().any(|c| matches!(*c, "P0014" | "P0022" | "P0016" | "P0017" | "P0018" | "P0015" | "P0006" | "P0007" | "P0008" | "P0009" | "P0021"));
+    host.faulty = w.violated.iter().any(|c| matches!(*c, "P0014" | "P0022" | "P0016" | "P0017" | "P0018" | "P0015" | "P0006" | "P0007" | "P0008" | "P0009" | "P0021" | "P0029"));
 
     let main = if host_kind == 0 {
         d("Main", "program", "PROGRAM Main VAR c : Host ; END_VAR c ( ) ; END_PROGRAM")
